@@ -11,85 +11,316 @@ from .. import lib, brewlib
 from . import c15
 
 PROP = "C08"
-RULE = ("per dataset (PSM table whose peptides come from a generated FASTA with subset / shared-peptide structures, fragments contained in two non-nested proteins, and "
+RULE = ("per dataset (PSM tables whose peptides come from a generated FASTA with subset / shared-peptide structures, fragments contained in two non-nested proteins, and "
         "decoys): the full analysis read_pin -> read_fasta -> brew (real PercolatorModel, fixed seed) -> assign_confidence "
-        "with proteins is run in fresh interpreters under PYTHONHASHSEED in {0, 1, 2, random} x max_workers in {1, 4}, "
-        "half of the datasets carry a string-valued filename column in the spectrum key; twice in each process, and the returned models are fed back in every permutation (k! for k<=4 folds; reversed, rotated and two random orders for 10 folds). Compared "
-        "bit for bit (float.hex / sha256): fold numbers, model coefficients, scores, descs, every result file (PSM, "
-        "peptide, protein level), read_fasta maps. The confidence stage is run a second time with the scores rounded to one "
-        "decimal (exact ties at every level, inside proteins and target/decoy protein pairs), and the interpreter-global numpy / "
-        "random state is set differently before the two runs of a process. distinct = (dataset, hash seed, workers); "
-        "non-trivial = the analysis ran through (every fold trained, all six result files written)")
+        "with proteins is run in fresh interpreters under PYTHONHASHSEED in {0, 1, 2, random} x max_workers in {1, 4} (base datasets; the "
+        "datasets of the white-box streams use three or four of these eight combinations), "
+        "half of the base datasets carry a string-valued filename column in the spectrum key; twice in each process, and the returned models are fed back in every permutation (k! for k<=4 folds; reversed, rotated and two random orders for 10 folds), "
+        "as lists and as tuples, and (persist) after a round trip through model files. Compared "
+        "bit for bit (float.hex / sha256): fold numbers, model coefficients, scores, descs, best feature / direction / count of every fold model, every result file (PSM, "
+        "peptide, protein level), read_fasta maps and has_decoys. Every dataset holds 'twin' PSMs: two spectra of the same fold (same first two spectrum-key columns, "
+        "different ExpMass) with equal, top feature values on two peptides of one protein (and of one target/decoy protein pair), so that the best score of "
+        "that protein is a tie which the seeded shuffle of groupby_max has to break (counted in the real call: 2-4 such groups per dataset). "
+        "The confidence stage is run a second and a third time with the scores rounded to one "
+        "decimal and to integers (exact ties at every level), and the interpreter-global numpy / "
+        "random state is set differently before the two runs of a process. The spectrum key is (filename, ScanNr, ExpMass) or (ScanNr, ret_time, ExpMass). White-box dimensions, each present in both tiers (tags wb:*): "
+        "MOKAPOT_* chunk-size environment smaller than the tables (several row chunks in read_pin, training-set assembly, prediction, "
+        "confidence, merge sort; several column chunks) together with random delays in mokapot's worker functions so that threads finish "
+        "in another order in every run; 2-3 collections of different size; subset_max_train below the training-set size; ensemble=True; "
+        "the seed given as a fresh numpy Generator instead of an int; run 2 re-using the model object and the result directory of run 1; "
+        "Parquet input; feature columns with missing values (dropped by read_pin); FASTA without decoys (target-only: decoy peptides are "
+        "mapped through match_decoy), FASTA handed over as two files, missed_cleavages 1-2, clip_nterm_methionine, semi; "
+        "brew(model=None) and target-only FASTA with anagram peptides are generated too and classified as known findings. "
+        "distinct = (dataset, options, hash seed, workers); "
+        "non-trivial = the analysis ran through (every fold trained, all result files of the three confidence runs written, the feed-back "
+        "runs done, the requested chunk sizes in force) and - when the protein level is on - at least one protein pair had its best "
+        "score on two peptides (counted in the real groupby_max call), so that the seeded tie-break decided an output row")
 ASSUMPTIONS = [
     "bit-reproducibility of numpy Generators, liblinear and BLAS across processes is runtime: observed, not proved",
     "shared_peptides VALUES ('; '.join(set)) differ between hash seeds by design; only the key set is compared and used downstream",
     "PEP estimation replaced by a deterministic constant",
+    "results are compared between runs with the SAME chunk-size environment; equality across chunk sizes is C05 / C03, not C08",
+    "a seed given as numpy Generator is 'fixed' when every run constructs it afresh from the same integer",
+    "make_decoys(reverse=False) has no seed argument (it draws from numpy's global state): outside 'with a fixed seed', not exercised",
 ]
 TRUSTED_EXTRA = ["subprocess isolation; PYTHONHASHSEED handling of CPython"]
+
+KEY_DEFAULT_MODEL = "brew:default-model-gridsearch-cv-unseeded"
+KEY_ANAGRAM = "picked_protein:target-only-fasta-match_decoy-global-state"
+
+CHUNK_ENV = {
+    "trainread": "MOKAPOT_CHUNK_SIZE_READ_ALL_DATA",
+    "predict": "MOKAPOT_CHUNK_SIZE_ROWS_PREDICTION",
+    "confidence": "MOKAPOT_CONFIDENCE_CHUNK_SIZE",
+    "mergesort": "MOKAPOT_MERGE_SORT_CHUNK_SIZE",
+    "rowscan": "MOKAPOT_CHUNK_SIZE_ROWS_FOR_DROP_COLUMNS",
+    "colscan": "MOKAPOT_CHUNK_SIZE_COLUMNS_FOR_DROP_COLUMNS",
+}
+
+
+def _small_chunks(rng):
+    """chunk sizes well below the table sizes (360+ rows), none dividing another"""
+    return {CHUNK_ENV["trainread"]: rng.choice([83, 97, 151]), CHUNK_ENV["predict"]: rng.choice([61, 89, 131]),
+            CHUNK_ENV["confidence"]: rng.choice([73, 113, 197]), CHUNK_ENV["mergesort"]: rng.choice([7, 19, 53]),
+            CHUNK_ENV["rowscan"]: rng.choice([79, 101, 173]), CHUNK_ENV["colscan"]: rng.choice([2, 3, 5])}
+
+
+def _comp(p):
+    return "".join(sorted(p))
+
+
+def _gen_fasta(rng, mode, fasta_args):
+    """(FASTA text, real read_fasta result, anagram triples).  target-only: no decoy entries, and the unique target
+    peptides have pairwise different amino-acid compositions (so that match_decoy has exactly one candidate per decoy
+    peptide); target-only-anagram: three extra protein pairs whose only peptides are anagrams of each other."""
+    for _ in range(200):
+        fasta, tp, dp = c15.gen_fasta(rng, "mirror" if mode == "mirror" else "target-only", wide=True, trios=3)
+        anagrams = []
+        if mode == "target-only-anagram":
+            for t in range(3):
+                body = rng.sample(c15.AA, 6)
+                x = "".join(body) + "K"
+                y = "".join(body[2:] + body[:2]) + "K"
+                fasta += ">ANA%dA first\n%s\n>ANA%dB second\n%s\n" % (t, x, t, y)
+                anagrams.append((x, y, "".join(body[::-1]) + "K"))
+        P = c15._proteins({"fasta": fasta, "fasta_args": fasta_args})
+        if P is None:
+            continue
+        if mode != "mirror":
+            keys = [p for p in P.peptide_map if not any(p in a[:2] for a in anagrams)]
+            if len({_comp(p) for p in keys}) != len(keys):
+                continue
+            if any(_comp(a[0]) in {_comp(p) for p in keys} for a in anagrams):
+                continue
+        return fasta, P, anagrams
+    raise RuntimeError("no FASTA of the requested shape found")
+
+
+def _dataset(rng, k, shape):
+    """one dataset: list of PSM tables (dicts of columns) + FASTA text + fasta_args.
+    shape: fasta_mode, filename_col, nfiles, nan_feats, levels, n (lo, hi), sep (distance of good PSMs), fasta_args"""
+    fasta_args = dict(c15.FASTA_ARGS)
+    fasta_args.update(shape.get("fasta_args") or {})
+    mode = shape.get("fasta_mode", "mirror")
+    pre = fasta_args["decoy_prefix"]
+    # exact score ties inside a protein / inside a target-decoy protein pair: twin PSMs with identical feature
+    # values on two different peptides of the same pair, which occur in no other PSM, so that the picked-protein
+    # step has to break the tie (with the seeded generator, never with interpreter-global state).
+    # The twins carry feature values above those of all other PSMs, so that they are the two best peptides of their
+    # pair and the tie is a tie for the best peptide of the protein (the worker counts such groups: `tie_groups`).
+    for _ in range(100):
+        fasta, P, anagrams = _gen_fasta(rng, mode, fasta_args)
+        pkey = lambda gname: P.protein_map.get(gname.split(",")[0].strip(), gname.split(",")[0].strip())
+        bykey = {}
+        for pep, gname in sorted(P.peptide_map.items()):
+            if not any(pep in a for a in anagrams):
+                bykey.setdefault(pkey(gname), []).append((pep, not gname.startswith(pre)))
+        keys = sorted(bykey)
+        rng.shuffle(keys)
+        pairs = []
+        for key in keys:                      # up to three proteins with two tied target peptides
+            ts = [x for x in bykey[key] if x[1]]
+            if len(ts) >= 2 and len(pairs) < 3:
+                pairs.append(rng.sample(ts, 2))
+        for key in keys:                      # and one pair in which a target and a decoy peptide tie
+            ts = [x for x in bykey[key] if x[1]]
+            ds = [x for x in bykey[key] if not x[1]]
+            if ts and ds and not any(x in pr for pr in pairs for x in ts + ds):
+                pairs.append([rng.choice(ts), rng.choice(ds)])
+                break
+        if len(pairs) >= 2:
+            break
+    else:
+        raise RuntimeError("no FASTA with two proteins of two unique peptides found")
+    allp = list(P.peptide_map.items()) + list(P.shared_peptides.items())
+    tpeps = sorted(p for p, g in allp if not g.startswith(pre))
+    dpeps = sorted(p for p, g in allp if g.startswith(pre))
+    if mode != "mirror":
+        # no decoy proteins: the decoy PSMs carry reversed target peptides (same composition, match_decoy maps them)
+        ana = {p for a in anagrams for p in a[:2]}
+        dpeps = sorted({c15.mirror(p, "reverse", rng) for p in tpeps if p not in ana} - set(tpeps))
+    reserved = {pep for pr in pairs for pep, _ in pr} | {p for a in anagrams for p in a}
+    tpool = [p_ for p_ in tpeps if p_ not in reserved] or tpeps
+    dpool = [p_ for p_ in dpeps if p_ not in reserved] or dpeps
+    n = rng.randint(*shape.get("n", (360, 520)))
+    sep = shape.get("sep", 2.5)
+    rows = []
+    for i in range(n):
+        tgt = rng.random() < 0.6
+        pep = rng.choice(tpool if tgt else dpool)
+        good = tgt and rng.random() < 0.75
+        rows.append((tgt, pep, good))
+    for x, y, rx in anagrams:
+        # the first anagram is a good target, the second a poor one, the reversed sequence a decoy seen several times:
+        # whichever of the two targets match_decoy picks decides with which protein the decoy competes
+        rows += [(True, x, True), (True, y, False)] + [(False, rx, False)] * 4
+    twins = {}
+    for j, pr in enumerate(pairs):
+        for pep, tgt in pr:
+            twins[len(rows)] = 6.0 + 0.5 * j
+            rows.append((tgt, pep, False))
+    n = len(rows)
+    cols = {"SpecId": ["psm%d" % i for i in range(n)], "Label": [1 if r[0] else -1 for r in rows],
+            "ScanNr": [rng.randint(1, n // 2) for _ in range(n)], "ExpMass": [500 + rng.randint(0, 5) * 0.25 for _ in range(n)],
+            # two equally informative features: the learned combination beats the best single feature on every fold
+            "feat0": [round(rng.gauss(sep if r[2] else 0.0, 1.0), 4) for r in rows],
+            "feat1": [round(rng.gauss(sep if r[2] else 0.0, 1.0), 4) for r in rows],
+            "feat2": [round(rng.random(), 4) for _ in range(n)],
+            "Peptide": ["K." + r[1] + ".A" for r in rows], "Proteins": ["x"] * n}
+    # the spectrum key is (filename, ScanNr, ExpMass) or (ScanNr, ret_time, ExpMass); the fold of a spectrum is decided by
+    # its first two key columns (dataset._split), and a fold model gives equal scores to equal feature rows: the twins of a
+    # pair are two spectra (different ExpMass) with the same first two key columns, hence the same fold and the same score
+    if shape.get("filename_col"):
+        # a string-valued spectrum column: the spectrum key (filename, ScanNr) then contains a string, so that a
+        # hash-seed dependent treatment of it (fold assignment) shows up between interpreter sessions
+        lead = ("filename", [rng.choice(["runA.mzML", "runB.mzML", "runC.mzML"]) for _ in range(n)])
+    else:
+        lead = ("ret_time", [rng.randint(0, 40) * 0.5 for _ in range(n)])
+    tw = sorted(twins)
+    for j, (a, b) in enumerate(zip(tw[0::2], tw[1::2])):
+        for i, mass in ((a, 700.25), (b, 701.5)):
+            cols["ScanNr"][i] = n + j
+            cols["ExpMass"][i] = mass
+            lead[1][i] = lead[1][a]
+            cols["feat0"][i], cols["feat1"][i], cols["feat2"][i] = twins[a], twins[a], 0.5
+    if shape.get("nan_feats"):
+        # feature columns with missing values: read_pin drops them (the surviving features and their order must not
+        # depend on the order in which the dropped ones are found)
+        for nm, pos in (("gapB", "feat1"), ("gapA", "feat2"), ("gapC", "Peptide")):
+            vals = [round(rng.random(), 3) for _ in range(n)]
+            for i in rng.sample(range(n), rng.randint(1, 5)):
+                vals[i] = None
+            new = {}
+            for kk, v in cols.items():
+                if kk == pos:
+                    new[nm] = vals
+                new[kk] = v
+            cols = new
+    for lv in shape.get("levels") or ():
+        # extra roll-up levels (read_pin finds them by name); half of the values coincide with the Peptide string
+        vals = [cols["Peptide"][i] if rng.random() < 0.5 else "%s%d" % (lv[:2].lower(), rng.randint(0, n // 3)) for i in range(n)]
+        new = {}
+        for kk, v in cols.items():
+            if kk == "Proteins":
+                new[lv] = vals
+            new[kk] = v
+        cols = new
+    cols = {"SpecId": cols["SpecId"], "Label": cols["Label"], "ScanNr": cols["ScanNr"], lead[0]: lead[1],
+            **{kk: v for kk, v in cols.items() if kk not in ("SpecId", "Label", "ScanNr")}}
+    nfiles = shape.get("nfiles", 1)
+    if nfiles == 1:
+        files = [{"columns": list(cols.keys()), "data": cols}]
+    else:
+        # collections of different size (the first is the largest), rows dealt out at random
+        weights = [[0.6, 0.4], [0.5, 0.3, 0.2]][nfiles - 2]
+        owner = [rng.choices(range(nfiles), weights)[0] for _ in range(n)]
+        tw = sorted(twins)
+        for a, b in zip(tw[0::2], tw[1::2]):      # the two PSMs of a tie stay in one collection
+            owner[b] = owner[a]
+        files = []
+        for f in range(nfiles):
+            idx = [i for i in range(n) if owner[i] == f]
+            for nm in ("gapA", "gapB", "gapC"):
+                # every collection has to lose the same features (brew refuses collections with different features)
+                if nm in cols and all(cols[nm][i] is not None for i in idx):
+                    cols[nm][rng.choice(idx)] = None
+            files.append({"columns": list(cols.keys()), "data": {kk: [v[i] for i in idx] for kk, v in cols.items()}})
+    return files, fasta, fasta_args
+
+
+MATRIX_FULL = [(hs, w) for hs in ("0", "1", "2", "R") for w in (1, 4)]
+MATRIX_SMALL = [("0", 1), ("1", 4), ("R", 4), ("2", 1)]
+
+
+def _plan(ctx, rng):
+    """(name, shape, options, folds, matrix) per dataset.  The first entries are the same in both tiers, so that every
+    white-box dimension is present in the quick tier as well."""
+    plan = []
+    nbase = 6 if ctx.thorough else 2
+    for k in range(nbase):
+        shape = {"filename_col": k % 2 == 0}
+        opts = {}
+        if k % 2 == 0:
+            # the base analysis under a small-chunk environment with perturbed thread timing, run 2 re-using the
+            # model object and the result directory of run 1
+            opts = {"chunks": "small", "sleep": True, "reuse": True}
+        else:
+            opts = {"rng_kind": "generator", "persist": True}
+        plan.append(("base%d" % k, shape, opts, (rng.choice([2, 3, 3, 4]) if k % 3 else 10), MATRIX_FULL))
+    wb = [
+        # several collections, training subset drawn with the seeded generator, chunks + delays, FASTA in two files
+        ("multi-subset", {"nfiles": 2, "n": (640, 800), "fasta_args": {"missed_cleavages": 1}, "levels": ["ModifiedPeptide", "Precursor"]},
+         {"chunks": "small", "sleep": True, "subset": 0.6, "fasta_files": 2, "persist": True}, 3),
+        # FASTA without decoys (unique compositions), features with missing values, ensemble prediction
+        ("target-only", {"fasta_mode": "target-only", "nan_feats": True, "filename_col": True},
+         {"ensemble": True, "chunks": "small", "sleep": True}, 3),
+        ("three-files-parquet", {"nfiles": 3, "n": (560, 700), "nan_feats": True, "fasta_args": {"clip_nterm_methionine": True}},
+         {"fmt": "parquet", "rng_kind": "generator", "reuse": True, "chunks": "small", "sleep": True}, 2),
+        # the two known findings
+        ("default-model", {"n": (1500, 1800), "sep": 3.5}, {"model": "default"}, 3),
+        ("target-only-anagram", {"fasta_mode": "target-only-anagram"}, {}, 3),
+    ]
+    for name, shape, opts, folds in wb:
+        matrix = MATRIX_SMALL[:2] if name in ("default-model", "target-only-anagram") else MATRIX_SMALL[:3]
+        plan.append((name, shape, opts, folds, matrix))
+    if ctx.thorough:
+        r2 = ctx.sub("c08-wb-random")
+        for j in range(14):
+            mode = r2.choice(["mirror", "mirror", "target-only"])
+            shape = {"fasta_mode": mode, "filename_col": r2.random() < 0.5, "nfiles": r2.choice([1, 1, 2, 3]),
+                     "nan_feats": r2.random() < 0.4, "levels": r2.choice([None, None, ["ModifiedPeptide"], ["Precursor", "PeptideGroup"]]),
+                     "fasta_args": {"missed_cleavages": r2.choice([0, 0, 1, 2]), "clip_nterm_methionine": r2.random() < 0.3,
+                                    "semi": r2.random() < 0.15}}
+            if shape["nfiles"] > 1:
+                shape["n"] = (600, 760)
+            opts = {"chunks": r2.choice(["small", "small", None]), "sleep": True, "ensemble": r2.random() < 0.25,
+                    "rng_kind": r2.choice(["int", "generator"]), "reuse": r2.random() < 0.5, "persist": r2.random() < 0.5,
+                    "fmt": r2.choice(["tsv", "tsv", "parquet"]), "fasta_files": r2.choice([1, 2])}
+            if shape["nfiles"] <= 2 and r2.random() < 0.4:
+                opts["subset"] = r2.choice([0.5, 0.7])
+                shape["n"] = (640, 800)
+            plan.append(("random%d" % j, shape, opts, r2.choice([2, 3, 4, 10] if shape["nfiles"] == 1 else [2, 3]), MATRIX_SMALL))
+    return plan
 
 
 def gen(ctx):
     cases = []
     rng = ctx.sub("c08")
-    nds = 6 if ctx.thorough else 2
-    for k in range(nds):
-        fasta, tp, dp = c15.gen_fasta(rng, "mirror", wide=True, trios=3)
-        fc = {"fn": "picked", "fasta": fasta, "fasta_args": dict(c15.FASTA_ARGS), "rows": [], "seed": 1, "ties": False}
-        P = c15._proteins(fc)
-        allp = list(P.peptide_map.items()) + list(P.shared_peptides.items())
-        tpeps = sorted(p for p, g in allp if not g.startswith("decoy_"))
-        dpeps = sorted(p for p, g in allp if g.startswith("decoy_"))
-        # exact score ties inside a protein / inside a target-decoy protein pair: twin PSMs with identical feature
-        # values on two different peptides of the same pair, which occur in no other PSM, so that the picked-protein
-        # step has to break the tie (with the seeded generator, never with interpreter-global state)
-        pkey = lambda gname: P.protein_map.get(gname.split(",")[0].strip(), gname.split(",")[0].strip())
-        bykey = {}
-        for pep, gname in sorted(P.peptide_map.items()):
-            bykey.setdefault(pkey(gname), []).append((pep, not gname.startswith("decoy_")))
-        pairs = []
-        for key in sorted(bykey):
-            if len(bykey[key]) >= 2 and len(pairs) < 6 and rng.random() < 0.5:
-                pairs.append(rng.sample(bykey[key], 2))
-        reserved = {pep for pr in pairs for pep, _ in pr}
-        tpool = [p_ for p_ in tpeps if p_ not in reserved] or tpeps
-        dpool = [p_ for p_ in dpeps if p_ not in reserved] or dpeps
-        n = rng.randint(360, 520)
-        rows = []
-        for i in range(n):
-            tgt = rng.random() < 0.6
-            pep = rng.choice(tpool if tgt else dpool)
-            good = tgt and rng.random() < 0.75
-            rows.append((tgt, pep, good))
-        twins = {}
-        for j, pr in enumerate(pairs):
-            for pep, tgt in pr:
-                twins[len(rows)] = 0.5 + 0.375 * j
-                rows.append((tgt, pep, False))
-        n = len(rows)
-        cols = {"SpecId": ["psm%d" % i for i in range(n)], "Label": [1 if r[0] else -1 for r in rows],
-                "ScanNr": [rng.randint(1, n // 2) for _ in range(n)], "ExpMass": [500 + rng.randint(0, 5) * 0.25 for _ in range(n)],
-                # two equally informative features: the learned combination beats the best single feature on every fold
-                "feat0": [round(rng.gauss(2.5 if r[2] else 0.0, 1.0), 4) for r in rows],
-                "feat1": [round(rng.gauss(2.5 if r[2] else 0.0, 1.0), 4) for r in rows],
-                "feat2": [round(rng.random(), 4) for _ in range(n)],
-                "Peptide": ["K." + r[1] + ".A" for r in rows], "Proteins": ["x"] * n}
-        for i, v in twins.items():
-            cols["ScanNr"][i] = n + i
-            cols["feat0"][i], cols["feat1"][i], cols["feat2"][i] = v, 0.5, 0.5
-        if k % 2 == 0:
-            # a string-valued spectrum column: the spectrum key (filename, ScanNr) then contains a string, so that a
-            # hash-seed dependent treatment of it (fold assignment) shows up between interpreter sessions
-            cols = {"SpecId": cols["SpecId"], "Label": cols["Label"], "ScanNr": cols["ScanNr"],
-                    "filename": [rng.choice(["runA.mzML", "runB.mzML", "runC.mzML"]) for _ in range(n)],
-                    **{kk: v for kk, v in cols.items() if kk not in ("SpecId", "Label", "ScanNr")}}
-        files = [{"columns": list(cols.keys()), "data": cols}]
-        base = {"fn": "history", "files": files, "fasta": fasta, "fasta_args": dict(c15.FASTA_ARGS), "seed": rng.randint(1, 10 ** 6),
-                "folds": rng.choice([2, 3, 3, 4]) if k % 3 else 10, "train_fdr": 0.05, "test_fdr": 0.2}
-        for hs in ["0", "1", "2", str(rng.randint(3, 4000000))]:
-            for w in (1, 4):
-                c = dict(base)
-                c.update({"hashseed": hs, "workers": w, "tags": ["history", "hashseed=" + ("random" if int(hs) > 2 else hs), f"workers={w}"]})
-                cases.append(c)
+    for k, (name, shape, opts, folds, matrix) in enumerate(_plan(ctx, rng)):
+        drng = ctx.sub("c08-data-%s" % name)
+        files, fasta, fasta_args = _dataset(drng, k, shape)
+        defaults = {"rng_kind": "int", "fmt": "tsv", "fasta_files": 1, "model": "percolator"}
+        o = {kk: v for kk, v in opts.items() if kk not in ("chunks", "subset") and v is not None and v is not False
+             and defaults.get(kk) != v}
+        if o.get("fmt") == "parquet":
+            # with Parquet input the protein level of /repo always fails (it writes proteins.parquet as text and reads it
+            # back as Parquet - repo_fixes/OBS-parquet-input-protein-level.py): PSM and peptide level only
+            o["proteins"] = False
+        chunks = _small_chunks(drng) if opts.get("chunks") == "small" else {}
+        if opts.get("subset"):
+            # below the size of every training set, and each collection's share below that collection's training rows
+            sizes = [len(f["data"]["Label"]) for f in files]
+            per_file = int(min(sizes) * (folds - 1) / folds * opts["subset"])
+            o["subset_max_train"] = per_file * len(files)
+        base = {"fn": "history", "name": name, "files": files, "fasta": fasta, "fasta_args": fasta_args, "seed": drng.randint(1, 10 ** 6),
+                "folds": folds, "train_fdr": 0.05, "test_fdr": 0.2, "opts": o, "chunks": chunks,
+                "fasta_mode": shape.get("fasta_mode", "mirror"), "levels": list(shape.get("levels") or ())}
+        wbtags = (["wb:" + kk + ("" if o[kk] is True else "=%s" % o[kk]) for kk in sorted(o) if kk not in ("model", "proteins", "subset_max_train")]
+                  + (["wb:subset_max_train"] if o.get("subset_max_train") else [])
+                  + (["wb:no-protein-level"] if o.get("proteins") is False else []) + (["wb:model=default"] if o.get("model") == "default" else [])
+                  + (["wb:small-chunks"] if chunks else [])
+                  + ["wb:files=%d" % len(files), "wb:fasta=" + base["fasta_mode"]]
+                  + (["wb:nan-features"] if shape.get("nan_feats") else [])
+                  + (["wb:extra-levels"] if shape.get("levels") else [])
+                  + ["wb:fasta-arg:%s" % a for a, v in sorted((shape.get("fasta_args") or {}).items()) if v]
+                  + ["folds=%d" % folds])
+        rnd = str(drng.randint(3, 4000000))
+        for hs, w in matrix:
+            c = dict(base)
+            c.update({"hashseed": rnd if hs == "R" else hs, "workers": w,
+                      "tags": ["history", "ds:" + name.rstrip("0123456789"), "hashseed=" + ("random" if hs == "R" else hs),
+                               f"workers={w}"] + wbtags})
+            cases.append(c)
     # the worker interpreters are independent: start them all now, 8 at a time
     from concurrent.futures import ThreadPoolExecutor
     pool = ThreadPoolExecutor(max_workers=8)
@@ -116,10 +347,13 @@ def _run_worker(c):
         p = os.path.join(d, "case.json")
         with open(p, "w") as f:
             json.dump({k: v for k, v in c.items() if k != "tags"}, f)
-        env = dict(os.environ)
+        env = {k: v for k, v in os.environ.items() if not k.startswith("MOKAPOT_")}
         env["PYTHONHASHSEED"] = c["hashseed"]
+        # the chunk sizes are read from the environment when mokapot is imported: this is the user's interface to them
+        for name, v in (c.get("chunks") or {}).items():
+            env[name] = str(v)
         r = subprocess.run([sys.executable, "-W", "ignore", "-m", "harness.c08_worker", p], env=env, cwd=str(lib.VERIF),
-                           stdout=subprocess.PIPE, stderr=subprocess.PIPE, timeout=1200)
+                           stdout=subprocess.PIPE, stderr=subprocess.PIPE, timeout=1800)
         for line in r.stdout.decode().splitlines():
             if line.startswith("C08RESULT "):
                 return json.loads(line[len("C08RESULT "):])
@@ -130,21 +364,40 @@ def _run_worker(c):
 
 
 def run_case(c):
+    from ..c08_worker import diff_keys, observed
     fut = _FUT.pop(_ckey(c), None)
     res = fut.result() if fut is not None else _run_worker(c)
-    key = lib.stable_hash({"files": c["files"], "fasta": c["fasta"], "seed": c["seed"], "folds": c["folds"]})
+    # everything but the history (hash seed, worker count) identifies the analysis
+    key = lib.stable_hash({k: v for k, v in c.items() if k not in ("tags", "hashseed", "workers")})
     model = {"run2_equal": True, "perms_ok": True, "same_as_reference": True}
     if "crash" in res:
         return ("ok", model), ("err", "worker crashed: " + res["crash"])
     ref = _REF.setdefault(key, res["run1"])
     impl = {"run2_equal": bool(res["run2_equal"]),
-            "perms_ok": all(p["scores_equal"] and not p["error"] for p in res["perms"]),
-            "same_as_reference": res["run1"] == ref,
+            "perms_ok": all(p["scores_equal"] and p["folds_equal"] and not p["error"] for p in res["perms"]),
+            "same_as_reference": observed(res["run1"]) == observed(ref),
             "n_perms": len(res["perms"]), "error": res["run1"].get("error"), "conf_error": res["run1"].get("conf_error"),
-            "all_trained": all(res["run1"].get("trained") or [False])}
-    _NONTRIVIAL[_ckey(c)] = bool(impl["all_trained"] and not impl["error"] and not impl["conf_error"] and res["run1"].get("files"))
+            "conf_tied_error": res["run1"].get("conf_tied_error"),
+            "all_trained": all(res["run1"].get("trained") or [False]),
+            # groups (protein pairs) whose best score is shared by two or more peptides, untied / rounded scores
+            "protein_ties": sum(x for x in res["run1"].get("_tie_groups") or [] if x > 0),
+            "protein_ties_rounded": sum(x for x in res["run1"].get("_tie_groups_tied") or [] if x > 0),
+            "protein_ties_coarse": sum(x for x in res["run1"].get("_tie_groups_coarse") or [] if x > 0),
+            "conf_coarse_error": res["run1"].get("conf_coarse_error"),
+            "chunk_env_applied": all(int(v) in res.get("chunk_constants", {}).values() for v in (c.get("chunks") or {}).values())}
+    want_files = ((6 if (c.get("opts") or {}).get("proteins", True) else 4) + 2 * len(c.get("levels") or ())) * len(c["files"])
+    with_proteins = (c.get("opts") or {}).get("proteins", True)
+    _NONTRIVIAL[_ckey(c)] = bool((impl["protein_ties"] > 0 or not with_proteins) and impl["all_trained"] and not impl["error"] and not impl["conf_error"] and not impl["conf_tied_error"] and not impl["conf_coarse_error"]
+                                 and len(res["run1"].get("files") or {}) == want_files
+                                 and len(res["run1"].get("files_tied") or {}) == want_files
+                                 and len(res["run1"].get("files_coarse") or {}) == want_files
+                                 and impl["n_perms"] > 0 and impl["chunk_env_applied"])
     if not impl["same_as_reference"]:
-        impl["diff_keys"] = [k for k in set(ref) | set(res["run1"]) if ref.get(k) != res["run1"].get(k)]
+        impl["diff_keys"] = diff_keys(ref, res["run1"])
+    if not impl["run2_equal"]:
+        impl["run2_diff"] = res.get("run2_diff")
+    if not impl["perms_ok"]:
+        impl["bad_perms"] = [p for p in res["perms"] if not (p["scores_equal"] and p["folds_equal"] and not p["error"])][:3]
     return ("ok", model), ("ok", impl)
 
 
@@ -162,14 +415,33 @@ def oracle(c, i):
         return str(i[1])
     o = i[1]
     if not o["run2_equal"]:
-        return "repeating the analysis in the same process gives different results"
+        return f"repeating the analysis in the same process gives different results: {o.get('run2_diff')}"
     if not o["perms_ok"]:
-        return "feeding the returned models back in another order does not reproduce the scores"
+        return f"feeding the returned models back in another order does not reproduce the scores: {o.get('bad_perms')}"
     if not o["same_as_reference"]:
         return (f"results differ between interpreter sessions (PYTHONHASHSEED={c['hashseed']}, workers={c['workers']}): "
                 f"{o.get('diff_keys')}")
     return None
 
 
+# observations that do not depend on the fitted models
+_UPSTREAM = {"features", "peptide_map", "shared_keys", "protein_map", "has_decoys", "folds", "error"}
+
+
 def finding_key(c, m, i):
+    """the two known findings, each confined to its input class AND to the observations it can touch"""
+    if i is None or i[0] != "ok":
+        return None
+    o = i[1]
+    diffs = list(o.get("diff_keys") or []) + list(o.get("run2_diff") or [])
+    if not diffs or not o["perms_ok"]:
+        return None
+    if (c.get("opts") or {}).get("model") == "default":
+        # brew(model=None): only what depends on the fitted models may differ
+        if not any(d.split(":")[0] in _UPSTREAM for d in diffs):
+            return KEY_DEFAULT_MODEL
+    if c.get("fasta_mode") == "target-only-anagram":
+        # only protein-level result files may differ
+        if all(d.split(":")[0] in ("files", "files_tied", "files_coarse") and d.endswith(".proteins") for d in diffs):
+            return KEY_ANAGRAM
     return None
